@@ -413,6 +413,8 @@ def save_score_midi(
             # in case of incomplete measures later in the score.
             all_ts = list(part.iter_all(score.TimeSignature))
             ts_changing_time = [ts.start.t for ts in all_ts]
+            # start times of the measures that get a time signature of their own length
+            adjusted_measure_times = []
             for measure in part.iter_all(score.Measure):
                 m_duration_beat = part.beat_map(measure.end.t) - part.beat_map(
                     measure.start.t
@@ -431,6 +433,7 @@ def save_score_midi(
                     ts_changing_time.append(
                         measure.start.t
                     )  # keep track of changing the ts
+                    adjusted_measure_times.append(measure.start.t)
                     # now go back to original ts if there is no ts change after this measure
                     if not any([ts_t > measure.start.t for ts_t in ts_changing_time]):
                         meta_events[part][to_ppq(measure.end.t)].append(
@@ -448,7 +451,7 @@ def save_score_midi(
 
             # now add the normal time signature change
             for ts in part.iter_all(score.TimeSignature):
-                if ts.start.t in ts_changing_time:
+                if ts.start.t in adjusted_measure_times:
                     # don't add if something is already added at this time to cover the case of a ts change when the first measure is shorter/longer
                     pass
                 else:
